@@ -174,8 +174,135 @@ impl cb::StateChangeListener for L {
     }
 }
 
+/// custom generators (circuit-breaker strategy Custom(7), flow control strategy Custom(7)) that call
+/// read-only manager functions while they build the breaker / controller
+#[derive(Clone, Copy, Debug, PartialEq)]
+enum Gen {
+    None,
+    /// the breaker generator queries the OTHER families' managers
+    CbQueriesOthers,
+    /// the breaker generator queries the circuit-breaker manager itself
+    CbQueriesOwn,
+    /// the flow generator queries the flow manager itself
+    FlowQueriesOwn,
+    /// the breaker generator queries the flow manager and the flow generator the breaker manager
+    CrossQuerying,
+}
+
+const CUSTOM: u8 = 7;
+
+fn custom_cb_rule(res: &str, th: f64) -> Arc<cb::Rule> {
+    Arc::new(cb::Rule { resource: res.into(), strategy: cb::BreakerStrategy::Custom(CUSTOM), threshold: th, stat_interval_ms: 1000, retry_timeout_ms: 100, min_request_amount: 1, ..Default::default() })
+}
+fn custom_flow_rule(res: &str, th: f64) -> Arc<flow::Rule> {
+    Arc::new(flow::Rule { resource: res.into(), threshold: th, control_strategy: flow::ControlStrategy::Custom(CUSTOM), ..Default::default() })
+}
+
+fn register_generators(g: Gen) {
+    let cb_queries: fn() = match g {
+        Gen::CbQueriesOthers => || {
+            let _ = (flow::get_rules(), isolation::get_rules(), system::get_rules(), hotspot::get_rules_of_resource(&R1.to_string()));
+        },
+        Gen::CbQueriesOwn => || {
+            let _ = (cb::get_rules(), cb::get_rules_of_resource(&R2.to_string()), cb::get_breakers_of_resource(&R2.to_string()));
+        },
+        Gen::CrossQuerying => || {
+            let _ = flow::get_rules();
+        },
+        _ => || {},
+    };
+    cb::set_circuit_breaker_generator(
+        cb::BreakerStrategy::Custom(CUSTOM),
+        Box::new(move |rule: Arc<cb::Rule>, _| -> Arc<dyn cb::CircuitBreakerTrait> {
+            cb_queries();
+            Arc::new(cb::ErrorCountBreaker::new(rule))
+        }),
+    )
+    .expect("custom breaker generator");
+    let flow_queries: fn() = match g {
+        Gen::FlowQueriesOwn => || {
+            let _ = flow::get_rules();
+        },
+        Gen::CrossQuerying => || {
+            let _ = (cb::get_rules(), cb::get_breakers_of_resource(&R2.to_string()));
+        },
+        _ => || {},
+    };
+    use flow::{Calculator, Checker};
+    use shuttle::sync::Mutex;
+    flow::set_traffic_shaping_generator(
+        flow::CalculateStrategy::Direct,
+        flow::ControlStrategy::Custom(CUSTOM),
+        Box::new(move |rule: Arc<flow::Rule>, _stat: Option<Arc<flow::StandaloneStat>>| -> sentinel_core::Result<Arc<flow::Controller>> {
+            flow_queries();
+            let stat = Arc::new(flow::StandaloneStat::new(false, sentinel_core::base::nop_read_stat(), Some(sentinel_core::base::nop_write_stat())));
+            let calculator: Arc<Mutex<dyn Calculator>> = Arc::new(Mutex::new(flow::DirectCalculator::new(std::sync::Weak::new(), rule.clone())));
+            let checker: Arc<Mutex<dyn Checker>> = Arc::new(Mutex::new(flow::RejectChecker::new(std::sync::Weak::new(), rule.clone())));
+            let mut tsc = flow::Controller::new(rule, stat);
+            tsc.set_calculator(calculator.clone());
+            tsc.set_checker(checker.clone());
+            let tsc = Arc::new(tsc);
+            calculator.lock().unwrap().set_owner(Arc::downgrade(&tsc));
+            checker.lock().unwrap().set_owner(Arc::downgrade(&tsc));
+            Ok(tsc)
+        }),
+    )
+    .expect("custom flow generator");
+}
+
+/// two threads load / append rules with the custom strategies while a third one builds and exits entries
+fn scenario_gen(g: Gen) {
+    set_ms(T0_MS + 250);
+    register_generators(g);
+    let mut hs = vec![];
+    match g {
+        Gen::FlowQueriesOwn => {
+            hs.push(thread::spawn(|| {
+                flow::load_rules(vec![custom_flow_rule(R1, 100.0), flow_rule(R2, 100.0)]);
+            }));
+            hs.push(thread::spawn(|| {
+                flow::append_rule(custom_flow_rule(R2, 50.0));
+            }));
+        }
+        Gen::CrossQuerying => {
+            hs.push(thread::spawn(|| {
+                cb::load_rules(vec![custom_cb_rule(R1, 0.5)]);
+            }));
+            hs.push(thread::spawn(|| {
+                flow::load_rules(vec![custom_flow_rule(R1, 100.0)]);
+            }));
+        }
+        _ => {
+            hs.push(thread::spawn(|| {
+                cb::load_rules(vec![custom_cb_rule(R1, 0.5), cb_rule(R2, 100.0)]);
+            }));
+            hs.push(thread::spawn(|| {
+                cb::append_rule(custom_cb_rule(R2, 0.25));
+                let _ = cb::load_rules_of_resource(&R1.to_string(), vec![custom_cb_rule(R1, 0.75)]);
+            }));
+            hs.push(thread::spawn(|| {
+                flow::load_rules(vec![flow_rule(R1, 100.0)]);
+                isolation::load_rules(vec![iso_rule(R1, 100)]);
+            }));
+        }
+    }
+    hs.push(thread::spawn(|| {
+        for _ in 0..2 {
+            if let Ok(e) = EntryBuilder::new(R1.to_string()).build() {
+                e.exit();
+            }
+        }
+    }));
+    for h in hs {
+        h.join().expect("a scenario thread panicked");
+    }
+    health_probe();
+    clear_everything();
+}
+
 #[derive(Clone, Debug)]
 struct Scn {
+    gen: Gen,
     a: (Fam, Vec<Op>),
     b: (Fam, Vec<Op>),
     c: Option<(Fam, Vec<Op>)>,
@@ -190,6 +317,9 @@ struct Scn {
 
 impl Scn {
     fn name(&self) -> String {
+        if self.gen != Gen::None {
+            return format!("generator-callbacks|{:?}", self.gen);
+        }
         format!(
             "{:?}{:?}|{:?}{:?}{}|pre{}|ent{}{}{}|{:?}",
             self.a.0,
@@ -222,6 +352,9 @@ fn health_probe() {
 }
 
 fn scenario(s: &Scn) {
+    if s.gen != Gen::None {
+        return scenario_gen(s.gen);
+    }
     set_ms(T0_MS + 250);
     match s.listener {
         Listener::None => {}
@@ -284,7 +417,7 @@ fn main() {
     for f in [Fam::Flow, Fam::Hot, Fam::Cb, Fam::Iso, Fam::Sys] {
         for (i, a) in OPS.iter().enumerate() {
             for b in &OPS[i..] {
-                scns.push(Scn { a: (f, vec![*a]), b: (f, vec![*b]), c: None, preload: true, entries: true, erroring: false, reject_probe: false, listener: Listener::None });
+                scns.push(Scn { gen: Gen::None, a: (f, vec![*a]), b: (f, vec![*b]), c: None, preload: true, entries: true, erroring: false, reject_probe: false, listener: Listener::None });
             }
         }
     }
@@ -292,26 +425,30 @@ fn main() {
     for l in [Listener::Plain, Listener::Querying] {
         for (i, a) in OPS.iter().enumerate() {
             for b in &OPS[i..] {
-                scns.push(Scn { a: (Fam::Cb, vec![*a]), b: (Fam::Cb, vec![*b]), c: None, preload: true, entries: true, erroring: true, reject_probe: false, listener: l });
+                scns.push(Scn { gen: Gen::None, a: (Fam::Cb, vec![*a]), b: (Fam::Cb, vec![*b]), c: None, preload: true, entries: true, erroring: true, reject_probe: false, listener: l });
             }
         }
     }
     // cross-family pairs
     for (fa, fb) in [(Fam::Flow, Fam::Cb), (Fam::Flow, Fam::Hot), (Fam::Cb, Fam::Iso), (Fam::Hot, Fam::Sys), (Fam::Flow, Fam::Iso)] {
         for (a, b) in [(Op::LoadA, Op::LoadB), (Op::Append, Op::Clear), (Op::LoadRes, Op::ClearRes), (Op::Clear, Op::Get)] {
-            scns.push(Scn { a: (fa, vec![a]), b: (fb, vec![b]), c: None, preload: true, entries: true, erroring: false, reject_probe: false, listener: Listener::None });
+            scns.push(Scn { gen: Gen::None, a: (fa, vec![a]), b: (fb, vec![b]), c: None, preload: true, entries: true, erroring: false, reject_probe: false, listener: Listener::None });
         }
     }
     // a probe that another rule rejects (exit hook rolls the breaker back) racing with breaker removal
     for l in [Listener::None, Listener::Plain] {
         for op in [Op::Clear, Op::LoadB, Op::ClearRes, Op::LoadRes] {
-            scns.push(Scn { a: (Fam::Cb, vec![op]), b: (Fam::Cb, vec![Op::Get]), c: None, preload: true, entries: true, erroring: true, reject_probe: true, listener: l });
+            scns.push(Scn { gen: Gen::None, a: (Fam::Cb, vec![op]), b: (Fam::Cb, vec![Op::Get]), c: None, preload: true, entries: true, erroring: true, reject_probe: true, listener: l });
         }
     }
     // selected triples and two-step threads
     for f in [Fam::Flow, Fam::Hot, Fam::Cb] {
-        scns.push(Scn { a: (f, vec![Op::LoadA, Op::Append]), b: (f, vec![Op::Clear, Op::LoadB]), c: Some((f, vec![Op::LoadRes, Op::Get])), preload: false, entries: true, erroring: false, reject_probe: false, listener: Listener::None });
-        scns.push(Scn { a: (f, vec![Op::Append, Op::Append]), b: (f, vec![Op::ClearRes, Op::Append]), c: Some((f, vec![Op::LoadB])), preload: true, entries: true, erroring: f == Fam::Cb, reject_probe: false, listener: if f == Fam::Cb { Listener::Plain } else { Listener::None } });
+        scns.push(Scn { gen: Gen::None, a: (f, vec![Op::LoadA, Op::Append]), b: (f, vec![Op::Clear, Op::LoadB]), c: Some((f, vec![Op::LoadRes, Op::Get])), preload: false, entries: true, erroring: false, reject_probe: false, listener: Listener::None });
+        scns.push(Scn { gen: Gen::None, a: (f, vec![Op::Append, Op::Append]), b: (f, vec![Op::ClearRes, Op::Append]), c: Some((f, vec![Op::LoadB])), preload: true, entries: true, erroring: f == Fam::Cb, reject_probe: false, listener: if f == Fam::Cb { Listener::Plain } else { Listener::None } });
+    }
+    // custom generators that call read-only manager functions from inside the manager's update
+    for g in [Gen::CbQueriesOthers, Gen::CbQueriesOwn, Gen::FlowQueriesOwn, Gen::CrossQuerying] {
+        scns.push(Scn { gen: g, a: (Fam::Cb, vec![]), b: (Fam::Cb, vec![]), c: None, preload: false, entries: true, erroring: false, reject_probe: false, listener: Listener::None });
     }
     let budget = if opts.thorough() { 20_000 } else { 800 };
     let only: Option<String> = opts.flag("only-scenario").map(|s| s.to_string());
@@ -366,7 +503,9 @@ fn main() {
                 v.join("+")
             };
             let sig = match f.kind.as_str() {
+                "panic" if s.gen != Gen::None && f.message.contains("already holds") => format!("deadlock/generator-callback/{:?}", s.gen),
                 "panic" => format!("panic/{fams}/{}", common::panic_site(&f.message)),
+                k if s.gen != Gen::None => format!("{k}/generator-callback/{:?}", s.gen),
                 k => format!("{k}/{fams}/{ops}/{:?}", s.listener),
             };
             rep.violation(&sig, format!("scenario {} under {} (seed {}): {}", s.name(), f.scheduler, f.seed, &f.message[..f.message.len().min(if std::env::var("VERIF_BACKTRACE").is_ok() { 60000 } else { 1800 })]), case.clone());
